@@ -164,7 +164,7 @@ func generate(r *core.Run, cfgName string, subst map[string]string) (*envTable, 
 	var progs []*progCase
 	var opts []*optCase
 	var mu sync.Mutex
-	res := tlcrun.MustHold(r, tlcrun.Options{Module: "JsSemGen", Config: cfgName, Workers: 5, TimeoutSec: r.Pick(600, 3000), XssMB: 256,
+	res := tlcrun.MustHold(r, tlcrun.Options{Module: "JsSemGen", Config: cfgName, Workers: 5, TimeoutSec: r.Pick(600, 3000), XssMB: 256, HeapGB: 2,
 		Files: map[string]string{cfgName: cfg},
 		OnCase: func(raw []byte) {
 			var head struct {
@@ -523,7 +523,7 @@ func confirmMismatches(r *core.Run, table *envTable, pends []pend) {
 	}
 	answers := map[int]*ans{}
 	var mu sync.Mutex
-	res := tlcrun.MustHold(r, tlcrun.Options{Module: "JsSemGen", Config: "JsSemGen.eval.cfg", Workers: 4, TimeoutSec: 600, XssMB: 256,
+	res := tlcrun.MustHold(r, tlcrun.Options{Module: "JsSemGen", Config: "JsSemGen.eval.cfg", Workers: 4, TimeoutSec: 600, XssMB: 256, HeapGB: 2,
 		Files: map[string]string{"c03_eval.ndjson": nd.String()},
 		OnCase: func(raw []byte) {
 			var a ans
